@@ -190,7 +190,7 @@ func PoolR() *Pool {
 
 // PoolN: negation over e/2, u/1 with IDB p/2, q/2, w/1.
 func PoolN() *Pool {
-	p := &Pool{Name: "N", Decls: "Decl e(A,B).\nDecl u(A).\n"}
+	p := &Pool{Name: "N", Decls: "Decl e(A,B).\nDecl u(A).\nDecl v(A).\n"}
 	add := func(s string) { p.Rules = append(p.Rules, s); p.Tags = append(p.Tags, "") }
 	add("p(X,Y) :- e(X,Y).")
 	add("p(X,Y) :- e(X,Z), p(Z,Y).")
@@ -215,6 +215,9 @@ func PoolN() *Pool {
 	add("w(X) :- e(X,Y), !w2(Y).")
 	add("w2(X) :- u(X), !p(X,X).")
 	add("w2(X) :- e(_,X), !u(X).")
+	add("q(X,Y) :- !u(X), !v(Y), e(X,Z), e(Z,Y).")
+	add("q(X,Y) :- !v(Y), !u(X), e(X,Z), e(Z,Y).")
+	add("q(X,Y) :- !u(X), !e(Y,X), e(X,_), e(_,Y).")
 	graphs := Digraphs("e", 3, 3)
 	var edbs [][]string
 	for gi, g := range graphs {
@@ -226,6 +229,9 @@ func PoolN() *Pool {
 			for i := 1; i <= 3; i++ {
 				if um&(1<<(i-1)) != 0 {
 					e = append(e, fmt.Sprintf("u(%d)", i))
+				}
+				if (um>>1|gi)&(1<<(i-1)) != 0 {
+					e = append(e, fmt.Sprintf("v(%d)", i))
 				}
 			}
 			edbs = append(edbs, e)
